@@ -265,6 +265,156 @@ func TestLbvcScenarioRetention(t *testing.T) {
 			}
 		}
 	}
+	// an age limit combined with a message limit, last-write times not monotonic: afterwards the oldest survivor must
+	// not be an expired segment (unless it is the newest one)
+	for _, c := range []struct {
+		times []int64
+		msgs  int64
+	}{{[]int64{5, 150, 20, 160}, 2}, {[]int64{5, 150, 20, 30, 160}, 3}, {[]int64{150, 20, 160}, 2}, {[]int64{5, 6, 150, 160}, 3}} {
+		dir, err := os.MkdirTemp("", "lbvc-ret2-")
+		if err != nil {
+			t.Skip(err)
+		}
+		var segs []*segment
+		for i, ts := range c.times {
+			sg, err := newSegment(dir, int64(i), 1<<20, true, "")
+			if err != nil {
+				t.Skip(err)
+			}
+			ms, entries, _ := newMessageSetFromProto(int64(i), 0, []*Message{lbvcMsg(i, 0)}, false)
+			sg.WriteMessageSet(ms, entries)
+			sg.lastWriteTime = ts
+			segs = append(segs, sg)
+		}
+		var opts deleteCleanerOptions
+		opts.Name, opts.Logger = "lbvc", noopLogger()
+		opts.Retention.Age, opts.Retention.Messages = time.Hour, c.msgs
+		saved := computeTTL
+		computeTTL = func(time.Duration) int64 { return 100 }
+		out, err := newDeleteCleaner(opts).Clean(append([]*segment{}, segs...))
+		computeTTL = saved
+		if err == nil && len(out) >= 2 && out[0].lastWriteTime < 100 {
+			problems = append(problems, fmt.Sprintf("last-write times %v, cut-off 100, message limit %d: after one clean the oldest surviving segment (offset %d, last write %d) has expired and is not the newest - the age limit does not hold",
+				c.times, c.msgs, out[0].BaseOffset, out[0].lastWriteTime))
+		}
+		if err == nil {
+			var n int64
+			for _, sg := range out {
+				n += sg.MessageCount()
+			}
+			if n > c.msgs && len(out) > 1 {
+				problems = append(problems, fmt.Sprintf("last-write times %v, message limit %d: %d messages survive", c.times, c.msgs, n))
+			}
+		}
+		for _, sg := range segs {
+			sg.Close()
+		}
+		os.RemoveAll(dir)
+	}
+	lbvcScenarioTail(t, problems)
+}
+
+// Retention on the whole log: (a) a clean during which further segments are appended (the appends are injected
+// through computeTTL, which the age pass calls in the middle of the clean with the log unlocked): every segment
+// appended meanwhile is still in the log, behind the cleaned ones; (b) several limits at once: afterwards every limit
+// holds (unless only the newest segment is left), the survivors are a contiguous suffix and read back from the
+// oldest offset.
+func lbvcFresh(i int) *Message {
+	m := lbvcMsg(i, 0)
+	m.Timestamp = time.Now().UnixNano()
+	return m
+}
+
+func TestLbvcScenarioRetentionOnLog(t *testing.T) {
+	var problems []string
+	checkLog := func(desc string, l *commitLog, wantOldest, wantNewest int64) {
+		segs := l.Segments()
+		if l.NewestOffset() != wantNewest {
+			problems = append(problems, fmt.Sprintf("%s: newest offset %d, expected %d", desc, l.NewestOffset(), wantNewest))
+		}
+		if wantOldest >= 0 && l.OldestOffset() != wantOldest {
+			problems = append(problems, fmt.Sprintf("%s: oldest offset %d, expected %d", desc, l.OldestOffset(), wantOldest))
+		}
+		if segs[len(segs)-1] != l.activeSegment() {
+			problems = append(problems, desc+": the last segment of the log is not the active segment")
+		}
+		for i := 1; i < len(segs); i++ {
+			if segs[i-1].NextOffset() != segs[i].BaseOffset {
+				problems = append(problems, fmt.Sprintf("%s: hole in the log between the segments at %d and %d (segments %d)", desc, segs[i-1].BaseOffset, segs[i].BaseOffset, len(segs)))
+				return
+			}
+		}
+		offs, _ := lbvcReadFwd(l, l.OldestOffset(), int(wantNewest)+3)
+		var want []int64
+		for o := l.OldestOffset(); o <= wantNewest; o++ {
+			want = append(want, o)
+		}
+		if fmt.Sprint(offs) != fmt.Sprint(want) {
+			problems = append(problems, fmt.Sprintf("%s: reading from the oldest offset returns %v, the log holds %v", desc, offs, want))
+		}
+	}
+	for _, c := range []struct{ before, during int; maxMsgs int64 }{{3, 2, 0}, {6, 3, 4}, {4, 1, 2}, {5, 4, 0}} {
+		l, cleanup := lbvcLog(t, Options{MaxSegmentBytes: 6, MaxLogAge: time.Hour, MaxLogMessages: c.maxMsgs})
+		for i := 0; i < c.before; i++ {
+			l.Append([]*Message{lbvcFresh(i)})
+		}
+		saved := computeTTL
+		injected := false
+		computeTTL = func(age time.Duration) int64 {
+			if !injected {
+				injected = true
+				for i := c.before; i < c.before+c.during; i++ {
+					l.Append([]*Message{lbvcFresh(i)})
+				}
+			}
+			return saved(age)
+		}
+		err := l.Clean()
+		computeTTL = saved
+		desc := fmt.Sprintf("%d segments of one message, message limit %d, %d segments appended while the clean runs", c.before, c.maxMsgs, c.during)
+		if err != nil {
+			problems = append(problems, desc+": "+err.Error())
+		} else {
+			oldest := int64(0)
+			if c.maxMsgs > 0 && int64(c.before) > c.maxMsgs {
+				oldest = int64(c.before) - c.maxMsgs
+			}
+			checkLog(desc, l, oldest, int64(c.before+c.during-1))
+			if n := len(l.Segments()); n != c.before+c.during-int(oldest) {
+				problems = append(problems, fmt.Sprintf("%s: %d segments afterwards, expected %d", desc, n, c.before+c.during-int(oldest)))
+			}
+		}
+		cleanup()
+	}
+	// several limits at once
+	for _, c := range []struct{ msgs, bytesSegs int64 }{{5, 1000}, {1000, 5}, {3, 8}, {8, 3}} {
+		l, cleanup := lbvcLog(t, Options{MaxSegmentBytes: 6, MaxLogMessages: c.msgs})
+		for i := 0; i < 15; i++ {
+			l.Append([]*Message{lbvcFresh(i)})
+		}
+		segsBefore := l.Segments()
+		byteLimit := c.bytesSegs * segsBefore[0].Position()
+		l.deleteCleaner.Retention.Bytes = byteLimit
+		// independent oracle: the longest suffix within both limits, never less than the newest segment
+		keep, total := int64(0), int64(0)
+		for i := len(segsBefore) - 1; i >= 0; i-- {
+			total += segsBefore[i].Position()
+			if keep >= 1 && (total > byteLimit || keep+1 > c.msgs) {
+				break
+			}
+			keep++
+		}
+		desc := fmt.Sprintf("15 segments of one message, message limit %d and byte limit %d (about %d segments)", c.msgs, byteLimit, c.bytesSegs)
+		if err := l.Clean(); err != nil {
+			problems = append(problems, desc+": "+err.Error())
+		} else {
+			checkLog(desc, l, 15-keep, 14)
+			if n := int64(len(l.Segments())); n != keep {
+				problems = append(problems, fmt.Sprintf("%s: %d segments survive, the limits allow exactly %d", desc, n, keep))
+			}
+		}
+		cleanup()
+	}
 	lbvcScenarioTail(t, problems)
 }
 
